@@ -8,6 +8,11 @@ CHECKS = {
     technique='TLA+ spec Cumsum.tla: TLC exhaustive check of the loop model (layer A) against numpy.cumsum semantics (layer D) + TLC-enumerated cases replayed on the real compiled kernel in sentinel arenas + TLC trace validation of recorded access logs',
     text='TLC visits every (input<=MaxN over 4 value classes, flags, offset, output length) configuration of the cumsum loop model and proves InBounds/RefinesD; every one of those cases is executed on the real cumsum (7 dtype pairings, compiled with guard cells and two poisons, interpreted, NUMBA_BOUNDSCHECK=1) and compared with the spec-computed result; access logs of the real source are validated against the model by TLC.',
     note='Small scope (N<=4 quick, N<=5 thorough); numpy.cumsum semantics transcribed in layer D; numba wraparound indexing model; empty reflected list cannot be typed by numba and is excluded.'),
+ 'C14': dict(
+    design='DESIGN.md §5 C14',
+    technique='TLA+ spec BloscStream.tla: TLC exhaustive exploration of the decompress state machine under every chunking + TLC-enumerated chunkings replayed on the real decompress + TLC validation of hook traces (BloscTrace.tla)',
+    text='TLC explores every way the environment can cut 11 frame sets into read chunks (incl. empty chunks) and proves alignment/accounting/final-state invariants of the reassembly state machine; three broken variants are rejected as positive controls; every chunking of streams up to 12 bytes is replayed on the real BloscCompressor.decompress (bytes, length, untouched tail, chunk-boundary state via hook); streams produced by the real compress() for all (n<=9, itemsize, block size) are checked against the writer spec, round-tripped under random chunkings, and their hook traces validated by TLC.',
+    note='Blosc codec replaced by a shim (marker byte + raw bytes): only framing and reassembly are verified. asdf file layer not exercised. Small frame sets; longer streams sampled.'),
 }
 NA = [
  dict(property_id='C18', reason='Pure real-valued geometry (square roots, sines, cross products) on a fixed finite domain of 65 340 codes: no state, order, schedule or index structure for a TLA+ transition system, and orthonormality/coverage are floating-point facts outside TLC integer arithmetic; an exhaustive numeric sweep would be a different technique (DESIGN.md §7).'),
